@@ -519,9 +519,22 @@ pub fn park_timeout(dur: Duration) {
 /// run the coroutine
 #[inline]
 pub(crate) fn run_coroutine(mut co: CoroutineImpl) {
+    #[cfg(may_verif)]
+    let _vname = crate::verif::co_name(&co);
+    #[cfg(may_verif)]
+    crate::verif::resume_enter(&_vname);
     match co.resume() {
+        #[cfg(may_verif)]
+        Some(ev) => {
+            crate::verif::subscribe_enter(&_vname);
+            ev.subscribe(co);
+            crate::verif::subscribe_leave(&_vname);
+        }
+        #[cfg(not(may_verif))]
         Some(ev) => ev.subscribe(co),
         None => {
+            #[cfg(may_verif)]
+            crate::verif::finish_enter(&_vname);
             // panic happened here
             let local = unsafe { &mut *get_co_local(&co) };
             let join = local.get_join();
@@ -532,6 +545,19 @@ pub(crate) fn run_coroutine(mut co: CoroutineImpl) {
             // trigger the join here
             join.trigger();
             Done::drop_coroutine(co);
+            #[cfg(may_verif)]
+            crate::verif::finish_leave(&_vname);
         }
     }
+}
+
+#[cfg(may_verif)]
+pub(crate) fn verif_co_name(co: &CoroutineImpl) -> String {
+    let local = unsafe { &*get_co_local(co) };
+    let h = local.get_co();
+    format!(
+        "{}|{}",
+        h.name().unwrap_or("?"),
+        Arc::as_ptr(&h.inner) as usize
+    )
 }
